@@ -169,6 +169,8 @@ class ConstT(T):
         v = self.pyval
         if isinstance(v, float) and v == float("inf"):
             return {"t": "inf"}
+        if isinstance(v, dict):
+            return {"t": "dict", "items": {k: {"t": "const", "v": x} for k, x in v.items()}}
         return {"t": "const", "v": v}
 
 
@@ -440,3 +442,21 @@ def Seq(elem, kind="list", **kw):
 
 
 NAMESPACE = {k: v for k, v in globals().items() if not k.startswith("_") and k not in ("z3",)}
+
+
+class ListT(TupleT):
+    """a Python list of fixed length with individually typed elements (a mutable object of the caller)"""
+
+    def expand(self):
+        import itertools
+        return [ListT(*c) for c in itertools.product(*[e.expand() for e in self.elems])]
+
+    def family(self, name, ctx, psorts):
+        fs = [e.family(f"{name}_{i}", ctx, psorts) for i, e in enumerate(self.elems)]
+        return lambda p: VList(ConcreteSeq([f(p) for f in fs]), "list")
+
+    def decode(self, model, value):
+        return {"t": "seq", "kind": "list", "items": [e.decode(model, v) for e, v in zip(self.elems, value.content.items)]}
+
+
+NAMESPACE.update(ListT=ListT)
